@@ -39,6 +39,7 @@ def run(res, programs, tier):
         _r03_3(res, P, P.name)
         _r03_4(res, P, P.name)
         _r03_5(res, P, P.name)
+        _r03_7(res, P, P.name)
         if "dashu_ratio" in P.units and P.role == "main":
             # R03.6 (= R10.4): the half test of round_fract is conservative
             from . import polarity
@@ -217,3 +218,69 @@ def _closure_ops(S, f, op):
         return []
     rv = d[2].get("rv", {})
     return rv.get("ops", []) if rv.get("k") == "agg" else []
+
+
+# ---------------------------------------------------------------------------------------------
+# R03.7  truncating signed arithmetic.  Exponents are isize and routinely negative; `/`, `%` and `>>` on
+# a signed primitive round toward zero resp. -inf, and `x % 2` is -1 for negative odd x.  The float
+# kernels use `& 1` for parities and divide only where the quotient is exact.  Every signed Div / Rem /
+# Shr site is either in the reviewed table (one line of reason), has an operand that is >= 0 on every
+# path to it, or (Rem) feeds nothing but `== 0` / `!= 0` tests.
+SIGNED = ("isize", "i8", "i16", "i32", "i64", "i128")
+SIGNED_REVIEWED = {
+    ("dashu_float::root::<impl dashu_float::repr::Context<R>>::sqrt", "Div"):
+        "exp = (x.exponent - shift) / 2: shift was chosen with the parity of x.exponent (`+ (x.exponent & 1)`, `- (digits & 1) - digits`), so the division is exact",
+}
+
+
+def _r03_7(res, P, cfgname):
+    res.rule("R03.7", "signed primitive Div / Rem / Shr in the float crate: reviewed exact site, operand >= 0 on every path, or (Rem) used only in `== 0` / `!= 0` tests (a signed `% 2` is -1 for negative odd exponents)")
+    n = 0
+    for f in P.fns("dashu_float"):
+        b = f.get("mir")
+        if not b:
+            continue
+        sites = [(i, j, s) for i, j, s in mir.iter_stmts(b)
+                 if s["k"] == "as" and s["rv"]["k"] == "bin" and s["rv"]["op"] in ("Div", "Rem", "Shr")
+                 and b["locals"][s["p"]["l"]]["ty"] in SIGNED and not s["p"].get("p")]
+        if not sites:
+            continue
+        S = sym.Sym(f)
+        cfg = mir.cfg_of(b)
+        du = mir.defuse_of(b)
+        for i, j, s in sites:
+            if i not in cfg.reachable():
+                continue
+            n += 1
+            op = s["rv"]["op"]
+            key = "%s %s" % (f["p"], op)
+            if (f["p"], op) in SIGNED_REVIEWED:
+                res.ok("R03.7", cfgname, key + " #reviewed", sample=dict(function=f["p"], op=op, reason=SIGNED_REVIEWED[(f["p"], op)]))
+                continue
+            a = sym.strip_casts(S.operand(s["rv"]["a"]))
+            nonneg = False
+            for c in guards.constraints_at(S, cfg, i):
+                if c[0] == "rel":
+                    _, o, A, B = c
+                    A, B = sym.strip_casts(A), sym.strip_casts(B)
+                    if A == a and B[0] == "const" and B[1] == 0 and o in ("Ge", "Gt"):
+                        nonneg = True
+                    if B == a and A[0] == "const" and A[1] == 0 and o in ("Le", "Lt"):
+                        nonneg = True
+            if nonneg:
+                res.ok("R03.7", cfgname, key + " #guarded", sample=dict(function=f["p"], op=op, operand=sym.term_str(a, 60), guard=">= 0 on every path"))
+                continue
+            if op == "Rem":
+                uses = du.uses.get(s["p"]["l"], [])
+                only_zero_tests = bool(uses)
+                for (ub, ui, node) in uses:
+                    rv = node.get("rv") if isinstance(node, dict) else None
+                    if not (rv and rv.get("k") == "bin" and rv.get("op") in ("Eq", "Ne") and (mir.op_const(rv["b"]) is not None or mir.op_const(rv["a"]) is not None)):
+                        if rv and rv.get("k") == "use":
+                            continue
+                        only_zero_tests = False
+                if only_zero_tests:
+                    res.ok("R03.7", cfgname, key + " #zero-test", sample=dict(function=f["p"], op=op, uses="== 0 / != 0 only"))
+                    continue
+            res.fail("R03.7", cfgname, key, "%s applies the truncating signed `%s` to `%s`, which may be negative here (exponents are): `x %% 2` is -1 for negative odd x and `/` rounds toward zero; the kernels use `& 1` / exact quotients" % (f["p"], {"Div": "/", "Rem": "%", "Shr": ">>"}[op], sym.term_str(a, 60)), span_loc(s["sp"]))
+    res.floor("R03.7", cfgname, n, 1, "signed Div/Rem/Shr sites in dashu_float")
